@@ -27,6 +27,22 @@ type Query struct {
 	SQL  []string `json:"sql"`
 }
 
+// Guard is a field tagged gomacro-sql-guard: its value is an SQL literal or a #[Type.Const] placeholder (tokens).
+type Guard struct {
+	Field  string   `json:"field"`
+	Gotype string   `json:"gotype"`
+	Value  []string `json:"value"`
+}
+
+// guardTemplates: a placeholder of an int enum, of a string enum whose value is spelled like the table struct Order,
+// a string literal spelled like it, a plain number.
+var guardTemplates = []Guard{
+	{"GK", "Kind", []string{"#", "[", "Kind", ".", "KB", "]"}},
+	{"GC", "Color", []string{"#", "[", "Color", ".", "Blue", "]"}},
+	{"GS", "string", []string{"'Order'"}},
+	{"GI", "int", []string{"3"}},
+}
+
 type Arg struct {
 	Name   string `json:"name"`
 	Gotype string `json:"gotype"`
@@ -43,6 +59,7 @@ type Case struct {
 	ItemC      [][]string  `json:"itemC"`
 	OrderC     [][]string  `json:"orderC"`
 	ItemQ      []Query     `json:"itemQ"`
+	ItemG      []Guard     `json:"itemG"` // guard fields of Item
 	Style      string      `json:"style"`
 	Neighbour  bool        `json:"neighbour"` // a third struct without comments sits between the two
 	Outcome    string      `json:"outcome"`
@@ -76,7 +93,11 @@ func text(toks []string) string {
 func render(c *Case) string {
 	var b strings.Builder
 	fmt.Fprintf(&b, "package d%d\n\ntype Kind int\n\nconst (\n\tKA Kind = iota\n\tKB\n)\n\ntype Color string\n\nconst (\n\tRed  Color = \"red\"\n\tBlue Color = \"Order\"\n)\n\n", c.Case)
-	item := "struct {\n\tId int64\n\tA  int\n\tB  string\n\tK  Kind\n\tC  Color\n}"
+	item := "struct {\n\tId int64\n\tA  int\n\tB  string\n\tK  Kind\n\tC  Color\n"
+	for _, g := range c.ItemG {
+		item += fmt.Sprintf("\t%s %s `gomacro-sql-guard:\"%s\"`\n", g.Field, g.Gotype, text(g.Value))
+	}
+	item += "}"
 	order := "struct {\n\tId int64\n\tA  int\n\tB  string\n}"
 	comments := func(cs [][]string, qs []Query, indent string) string {
 		var s strings.Builder
@@ -237,6 +258,9 @@ func Run(c *core.Ctx, replay string) (*core.Result, error) {
 			return nil, err
 		}
 		cs.Case, cs.Outcome, cs.Statements, cs.Queries = 1, "", nil, nil
+		if cs.ItemG == nil {
+			cs.ItemG = []Guard{}
+		}
 		cases = []Case{cs}
 	} else {
 		cfg := "DirectivesModel_quick.cfg"
@@ -269,6 +293,13 @@ func Run(c *core.Ctx, replay string) (*core.Result, error) {
 			json.Unmarshal(b, &cs)
 			cs.Case = k + 1
 			cs.Neighbour = rng.Intn(2) == 0
+			// guard fields: case k carries the k-th subset of the templates (every subset within 16 cases)
+			cs.ItemG = []Guard{}
+			for gi, g := range guardTemplates {
+				if k>>gi&1 == 1 {
+					cs.ItemG = append(cs.ItemG, g)
+				}
+			}
 			cases = append(cases, cs)
 		}
 	}
